@@ -556,6 +556,6 @@ func (o *c12Oracle) nontrivial() (bool, []string) {
 }
 
 func TestVerifC12(t *testing.T) {
-	standardTest(t, "C12", "TestVerifC12", runOpts{minLen: 10, maxLen: 100, gen: ircgen.Options{Bias: "membership"}},
+	standardTest(t, "C12", "TestVerifC12", runOpts{minLen: 10, maxLen: 100, captchaSometimes: true, gen: ircgen.Options{Bias: "membership"}},
 		func(rec *vh.Recorder) oracle { return &c12Oracle{rec: rec} })
 }
